@@ -43,7 +43,9 @@ def cases(seed, tier):
             c["force"] = sorted(set([x for x in (c["force"] or []) if x not in ("stacked", "divguard", "stoch", "stoch3")] + ["intutil", "narrownext", "nostoch"]))
         if i % 5 == 2:
             # states without any feasible choice (value -inf): both routes must report the same -inf
-            c["force"] = sorted(set((c["force"] or []) + ["ninf"]))
+            # (not on log grids: next to a -inf entry the interpolation weight of a log-grid node is 0 or 1e-17 depending on
+            # rounding, i.e. nan or -inf - outside the supported class and outside exact arithmetic at the same time)
+            c["force"] = sorted(set([x for x in (c["force"] or []) if x != "log"] + ["ninf"]))
             c["allow_ninf"] = True
     return cs
 
